@@ -611,6 +611,11 @@ func c30RunRace(c c30RaceCase) (res verifkit.Result) {
 	if m.hasDup {
 		return verifkit.Result{Labels: []string{"out-of-domain"}}
 	}
+	for _, b := range list {
+		if _, err := netutil.Parse(b, "tcp"); err != nil { // domain of the 'attempts' check (known finding there)
+			return verifkit.Result{Labels: []string{"out-of-domain"}}
+		}
+	}
 	downSet := map[string]bool{}
 	for i, cn := range m.distinct {
 		if i < len(c.Down) && c.Down[i] {
@@ -767,7 +772,7 @@ func c30GenRace(t *rapid.T) c30RaceCase {
 	var b c30Case
 	c30GenRoute(t, &b, true)
 	c := c30RaceCase{Strategy: b.Strategy, Pattern: b.Pattern, Host: b.Host, Backends: b.Backends}
-	if strings.ContainsAny(c.Host, "[]") { // unparsable substitutions are the sequential check's subject
+	if strings.ContainsAny(c.Host, "[]:") { // unparsable substitutions are the sequential check's subject
 		c.Host = "lobby.MC.example.com"
 	}
 	c.Down = rapid.SliceOfN(rapid.SampledFrom([]bool{false, false, false, true}), len(c.Backends), len(c.Backends)).Draw(t, "down")
